@@ -388,6 +388,7 @@ func (e *Engine) VerifyFunc(prop, key string) (rep *FuncReport, obls []*Obligati
 		}
 	}()
 	fc.loadAxioms()
+	fc.loadLemmas()
 	fc.run()
 	for k := range fc.inlined {
 		rep.Inlined = append(rep.Inlined, shortPkg(k))
@@ -623,6 +624,47 @@ func (fc *FCtx) loadAxioms() {
 	}
 }
 
+// lemmaFormula builds the closed formula of a lemma (for an inductive lemma: restricted to k >= 0).
+func (fc *FCtx) lemmaFormula(l *Lemma) string {
+	pkg := fc.E.pkgs[l.Pkg]
+	if pkg == nil {
+		pkg = fc.FI.Pkg
+	}
+	st := &State{vars: map[types.Object]Val{}, ghost: map[string]Val{}}
+	env := &Env{fc: fc, st: st, old: st, pkg: pkg, names: map[string]Val{}, bound: map[string]Val{}}
+	n := l.Expr
+	if l.Induct != "" && n.Op == "forall" {
+		// forall ..k.. :: P   becomes   forall ..k.. :: k >= 0 ==> P
+		guard := &SNode{Op: "bin", Name: ">=", Args: []*SNode{{Op: "id", Name: l.Induct}, {Op: "num", Name: "0"}}}
+		n = &SNode{Op: "forall", Binders: n.Binders, Args: append([]*SNode{{Op: "bin", Name: "==>", Args: []*SNode{guard, n.Args[0]}}}, n.Args[1:]...)}
+	}
+	return fc.specBool(n, env)
+}
+
+// loadLemmas makes the lemmas named in the contract's `uses` clause available as assumptions. They are proved by
+// their own obligations (kind "lemma"), which the same check run includes.
+func (fc *FCtx) loadLemmas() {
+	if fc.C == nil {
+		return
+	}
+	for _, name := range fc.C.Uses {
+		var lm *Lemma
+		for _, l := range fc.E.cs.Lemmas {
+			if l.Name == name {
+				lm = l
+			}
+		}
+		if lm == nil {
+			oos("uses: unknown lemma %q", name)
+		}
+		frames := fc.frames
+		fc.frames = []*frame{{fi: fc.FI}}
+		t := fc.lemmaFormula(lm)
+		fc.frames = frames
+		fc.U.Axiom("lemma "+lm.Name+" (proved by its own obligations in this run): "+lm.Src, t)
+	}
+}
+
 func (fc *FCtx) modifiesGhost(g string) bool {
 	for _, m := range fc.C.Modifies {
 		if m == g || m == "*" {
@@ -718,6 +760,45 @@ func (fc *FCtx) observe(path string, v Val, depth int) {
 }
 
 func (fc *FCtx) script(o *Obligation) string {
+	full, lite, dropped := fc.scriptVariant(o, false), "", 0
+	if !o.Cover {
+		lite, dropped = fc.scriptLite(o)
+	}
+	if dropped > 0 {
+		o.Lite = lite
+	}
+	return full
+}
+
+// scriptLite: the obligation without the lemmas of the `uses` clause and without recursive spec-function
+// definitions. Dropping assumptions is sound for unsat answers (sat answers of this variant are ignored); it keeps
+// e-matching from looping through recursive definitions on obligations that do not need them.
+func (fc *FCtx) scriptLite(o *Obligation) (string, int) {
+	n := 0
+	for i, a := range fc.U.axioms {
+		if fc.liteDrops(i, a) {
+			n++
+		}
+	}
+	if n == 0 {
+		return "", 0
+	}
+	return fc.scriptVariant(o, true), n
+}
+
+func (fc *FCtx) liteDrops(i int, text string) bool {
+	src := fc.U.axiomSrc[i]
+	if strings.HasPrefix(src, "lemma ") {
+		return true
+	}
+	if strings.HasPrefix(src, "spec ") {
+		name := "spec_" + strings.TrimPrefix(src, "spec ")
+		return strings.Count(text, "("+name+" ") > 1
+	}
+	return false
+}
+
+func (fc *FCtx) scriptVariant(o *Obligation, lite bool) string {
 	var b strings.Builder
 	b.WriteString("(set-option :produce-models true)\n(set-logic ALL)\n")
 	for _, d := range fc.U.decls {
@@ -730,7 +811,10 @@ func (fc *FCtx) script(o *Obligation) string {
 	if e, ok := fc.U.strLits[""]; ok {
 		b.WriteString(fmt.Sprintf("(assert (forall ((s Str)) (! (=> (= (str_len s) 0) (= s %s)) :pattern ((str_len s)))))\n", e))
 	}
-	for _, a := range fc.U.axioms {
+	for i, a := range fc.U.axioms {
+		if lite && fc.liteDrops(i, a) {
+			continue
+		}
 		b.WriteString("(assert " + a + ")\n")
 	}
 	for _, a := range fc.pureFacts {
